@@ -20,6 +20,8 @@ class Net:
         self.log = []                 # ('batch', block_id, sender idx, [elements]) | ('timeout',)
         self.ended = {b: [0] * len(s[0]) for b, s in sides.items()}
         self.max_timeouts = max_timeouts
+        self.adaptive = False
+        self.forced = 0               # pauses met while the block waited without a timeout on unflushed output
 
     def avail(self, bid):
         coords, batches = self.sides[bid]
@@ -45,6 +47,13 @@ class NetRx(PyObj):
         self.bid = bid
 
     def _pick(self, ex, cands, allow_timeout):
+        if not allow_timeout and self.net.adaptive and self.net.forced == 0 and hlib.unflushed(ex):
+            # C18: adaptive batching, elements went downstream since the last FlushBatch / FlushAndRestart and the
+            # block now waits WITHOUT a timeout.  The environment is free to stay silent here (pause >= 3 x
+            # max_delay before the next batch): a correct block turns that pause into a FlushBatch, this one cannot.
+            # Recorded like a timeout, so the oracle expects a FlushBatch and the native replay really pauses.
+            self.net.forced += 1
+            self.net.log.append(('timeout',))
         n = len(cands) + (1 if allow_timeout and self.net.max_timeouts > 0 else 0)
         if n == 0:
             raise Violation('the block waits on a channel on which nothing can arrive any more (deadlock)')
@@ -103,6 +112,7 @@ def binary_setup(ex, w, op_holder, setup_fn, nl, nr, scripts_l, scripts_r, cut, 
     net = Net(w, {1: (cl, [cut_batches(ex, s, cut) for s in scripts_l]),
                   2: (cr, [cut_batches(ex, s, cut) for s in scripts_r])}, max_timeouts if adaptive else 0)
     topo = Topology({1: NetRx(net, 1), 2: NetRx(net, 2)})
+    net.adaptive = bool(adaptive)
     md = exec_metadata(w, hlib.coord(w, 3, 0, 0), adaptive)
     md.set('network', Ref([topo], 0))
     tid = Opaque('TypeId')
@@ -226,7 +236,7 @@ def zip_tasks(tier, role):
 
 # ------------------------------------------------------------------------------------ cached side input (C11)
 
-def native_binstart(ex, net, nl, nr, lc, rc):
+def native_binstart(ex, net, nl, nr, lc, rc, keep_flush=False):
     """the real Start<BinaryStartReceiver> fed with the batches of the model run, in the same order"""
     import os
     from mirsym.executor import RustPanic
@@ -254,7 +264,7 @@ def native_binstart(ex, net, nl, nr, lc, rc):
     for tok in txt.split():
         if tok in ('TIMEOUT', 'OVERRUN'):
             raise Violation('the real binary Start does not terminate on this input (%s)' % tok, hlib._wit(ex))
-        if tok == 'B':
+        if tok == 'B' and not keep_flush:
             continue
         if tok in ('LE', 'RE'):
             out.append(hlib.se('Item', Enum('BinaryElement', 'LeftEnd' if tok == 'LE' else 'RightEnd', BE['LeftEnd' if tok == 'LE' else 'RightEnd'], [])))
@@ -314,6 +324,18 @@ def cache_harness(w, nl, nr, rounds, max_len, cached='right', cut='each', timeou
                 if [x for x in got_side if x in ids] != ids:
                     raise Violation('round %d sees the cached input of a producer in a different order' % k,
                                     hlib._wit(ex), sx())
+            # the end-of-side marker tells the operators that the side is complete: it follows every element of it
+            seen_end = set()
+            for e in its:
+                if e.variant != 'Item':
+                    continue
+                v = e.fields[0].variant
+                if v in ('LeftEnd', 'RightEnd'):
+                    seen_end.add(v[:-3])
+                elif v in seen_end:
+                    raise Violation('round %d: an element of the %s input is presented after its %sEnd marker (the side '
+                                    'is declared complete before all of it was delivered)' % (k, v.lower(), v),
+                                    hlib._wit(ex), sx())
             ends = [e.fields[0].variant for e in its if e.variant == 'Item' and e.fields[0].variant in ('LeftEnd', 'RightEnd')]
             if sorted(ends) != ['LeftEnd', 'RightEnd']:
                 raise Violation('round %d: end-of-side markers %s (one LeftEnd and one RightEnd expected)' % (k, ends),
@@ -345,6 +367,69 @@ def cache_tasks(tier, role):
                               (c['cached'], c['nl'], c['nr'], c['rounds'], c['max_len'], c['max_len'][0]), role=role,
                        opts={'covers': ['replayed']}, budget=300))
     return ts
+
+
+# ------------------------------------------------------------------------------------ idle flush of a two-input block (C18)
+
+def binstart_flush_harness(w, nl, nr, iters, max_len, timeouts, cached=None):
+    """Start<BinaryStartReceiver> with adaptive batching: every pause of the producers (receive timeout) is turned
+    into exactly one FlushBatch, whichever side is still running, and the block never waits without a timeout while
+    elements it handed downstream have not been followed by a FlushBatch / FlushAndRestart"""
+    multiple = w.impls[(None, 'Start')]['multiple'][0]
+    setup = w.impls[('Operator', 'Start')]['setup'][0]
+    nxt = w.impls[('Operator', 'Start')]['next'][0]
+    hlib.check_se_table(w)
+
+    def h(ex):
+        sl = gen_side(ex, nl, iters, max_len, 'I', 1, 'l')
+        sr = gen_side(ex, nr, iters, max_len, 'I', 2, 'r')
+        st = ex.call_function(multiple, [Int('u64', 1), Int('u64', 2), False, False, none()])
+        holder = [st]
+        net = binary_setup(ex, w, holder, setup, nl, nr, sl, sr, 'each', max_timeouts=timeouts, adaptive=True)
+        total = sum(len(s) for s in sl + sr)
+        out = hlib.drive(ex, nxt, holder, 2 * total + 12 + 2 * timeouts)
+        if ex.env.get('native'):
+            out = native_binstart(ex, net, nl, nr, False, False, keep_flush=True)
+        sx = lambda: {'left': [[repr(e) for e in s] for s in sl], 'right': [[repr(e) for e in s] for s in sr],
+                      'arrival': [('timeout',) if ev[0] == 'timeout' else (ev[1], ev[2], len(ev[3])) for ev in net.log],
+                      'output': [repr(e) for e in out], 'blocking_waits_on_unflushed_output': net.forced}
+        hlib.check_grammar(ex, out, iters, 'binary Start output')
+        n_flush = sum(1 for e in out if e.variant == 'FlushBatch')
+        n_pause = sum(1 for ev in net.log if ev[0] == 'timeout')
+        if n_flush != n_pause:
+            raise Violation('two-input block with adaptive batching: %d pause(s) of the producers but %d FlushBatch: '
+                            '%s' % (n_pause, n_flush, 'the block waits without a timeout although elements it passed '
+                                    'downstream have not been flushed (they stay in the batchers for as long as no input arrives)'
+                                    if n_flush < n_pause else 'spurious FlushBatch'), hlib._wit(ex), sx())
+        # a FlushBatch sits exactly where the pause happened: between the elements of the batches around it
+        pos, want = 0, []
+        for ev in net.log:
+            if ev[0] == 'timeout':
+                want.append('B')
+            else:
+                want += ['D'] * sum(1 for e in ev[3] if e.variant == 'Item')
+        got = ['B' if e.variant == 'FlushBatch' else 'D' for e in out
+               if e.variant == 'FlushBatch' or (e.variant == 'Item' and e.fields[0].variant in ('Left', 'Right'))]
+        if got != want:
+            raise Violation('FlushBatch is not emitted at the point of the pause (got %s, expected %s)' %
+                            (''.join(got), ''.join(want)), hlib._wit(ex), sx())
+        if n_pause:
+            hlib.cover(ex, 'timeout')
+        ended = [ev for ev in net.log]
+        return sx()
+    return h
+
+
+def binstart_flush_tasks(tier, role):
+    cfgs = [dict(nl=1, nr=1, iters=1, max_len=[2], timeouts=1), dict(nl=1, nr=1, iters=2, max_len=[1, 1], timeouts=1)]
+    if tier != 'quick':
+        cfgs += [dict(nl=1, nr=1, iters=2, max_len=[2, 1], timeouts=2), dict(nl=2, nr=1, iters=1, max_len=[1], timeouts=1)]
+    return [Task('binstart_flush_%dx%d_i%d' % (c['nl'], c['nr'], c['iters']), 'binstart_flush_harness', c,
+                 bounds='Start<BinaryStartReceiver>, adaptive batching: %d + %d producers, %d iteration(s) x <=%s items per '
+                        'producer, one element per batch, every arrival interleaving, <=%d receive timeouts at any point; a '
+                        'wait without timeout on unflushed output counts as a pause' %
+                        (c['nl'], c['nr'], c['iters'], c['max_len'], c['timeouts']),
+                 role=role, opts={'covers': ['timeout']}, budget=300) for c in cfgs]
 
 
 # ------------------------------------------------------------------------------------ merge (C09)
